@@ -13,6 +13,7 @@ from yamlpath.enums import (
 from yamlpath.common import Anchors, Nodes
 from yamlpath.types import PathAttributes
 from yamlpath.path import SearchTerms
+from yamlpath.exceptions import YAMLPathException
 
 
 class Searches:
@@ -109,7 +110,13 @@ class Searches:
             else:
                 matches = str(typed_haystack) <= str(needle)
         elif method == PathSearchMethods.REGEX:
-            matcher = re.compile(needle)
+            try:
+                matcher = re.compile(needle)
+            except re.error as wrap_ex:
+                raise YAMLPathException(
+                    "Invalid Regular Expression, {}".format(wrap_ex),
+                    "=~/{}/".format(needle)
+                ) from wrap_ex
             matches = matcher.search(str(typed_haystack)) is not None
         else:
             raise NotImplementedError
